@@ -16,6 +16,7 @@ import (
 
 type c13Case struct {
 	Transport  string `json:"transport"` // virtual: inproc | fconn | fconn-tls ; real: tcp | ws | wss | inproc
+	TLS12      bool   `json:"tls12,omitempty"` // fconn-tls: TLS capped at version 1.2 (the close notification is visible as such; crypto/tls then hands over the last record together with io.EOF)
 	Wiring     string `json:"wiring"`    // channel (bare ClientChannel) | client (lime.Client)
 	Initiator  string `json:"initiator"` // client-finish | server-finish | server-fail | client-close | server-close
 	ChanBuf    int    `json:"chanBuf"`
@@ -208,6 +209,9 @@ func boundFor(transport string) time.Duration {
 
 func judgeC13(c *c13Case, obs *c13Obs, o *Outcome) {
 	o.Class("transport=" + c.Transport)
+	if c.TLS12 {
+		o.Class("tls-1.2")
+	}
 	o.Class("wiring=" + c.Wiring)
 	o.Class("initiator=" + c.Initiator)
 	if c.PeerStuck {
